@@ -107,6 +107,9 @@ func runC06(c *Ctx) {
 		if staticCallee(ci) == en {
 			return ci, "ExecNext"
 		}
+		if ci2, _, _ := chainRunner(staticCallee(ci), en); ci2 >= 0 {
+			return ci, "ExecNext"
+		}
 		return nil, ""
 	}
 
@@ -120,7 +123,9 @@ func runC06(c *Ctx) {
 		// the interpreter proper: ExecNext, built-in actions, negation wrapper, Sequence.Exec
 		nm := funcName(top)
 		if !(strings.Contains(nm, "ChainWalker).ExecNext") || strings.Contains(nm, ".Action") || strings.Contains(nm, "reverseMatch).Match") || strings.Contains(nm, "Sequence).Exec")) {
-			continue
+			if ci2, _, _ := chainRunner(top, en); ci2 < 0 {
+				continue
+			}
 		}
 		eachInstr(f, func(in ssa.Instruction) {
 			ci, kind := isEngineCall(in)
@@ -268,6 +273,8 @@ func runC06(c *Ctx) {
 			if ci, ok := in.(*ssa.Call); ok {
 				if staticCallee(ci) == en {
 					out = append(out, ci)
+				} else if chi, _, _ := chainRunner(staticCallee(ci), en); chi >= 0 {
+					out = append(out, ci)
 				} else if ci.Call.IsInvoke() && (ci.Call.Method.Name() == "Exec" || ci.Call.Method.Name() == "ExecNext") {
 					out = append(out, ci)
 				}
@@ -311,6 +318,12 @@ func runC06(c *Ctx) {
 		eachInstr(f, func(in ssa.Instruction) {
 			if ci, ok := in.(*ssa.Call); ok && callName(ci) == relSeq+".NewChainWalker" {
 				to, jb, call = ci.Call.Args[0], ci.Call.Args[1], ci
+			}
+			// ... or a NEW helper that builds the walker from its parameters and runs it
+			if ci, ok := in.(*ssa.Call); ok {
+				if chi, jbi, _ := chainRunner(staticCallee(ci), en); chi >= 0 && chi < len(ci.Call.Args) && jbi < len(ci.Call.Args) {
+					to, jb, call = ci.Call.Args[chi], ci.Call.Args[jbi], ci
+				}
 			}
 		})
 		if call != nil {
@@ -371,6 +384,47 @@ func runC06(c *Ctx) {
 			to, jb, call = chainV, jbV, ci
 		})
 		return
+	}
+	// who may construct a jump / goto action: only its own setup function (an exec written as `$tag` of a sequence is
+	// that sequence as a plain action: accept / reject / goto inside it end that action, not the caller)
+	for typ, ctor := range map[string]string{"ActionJump": "setupJump", "ActionGoto": "setupGoto"} {
+		n, bad := 0, ""
+		for _, f := range p.Funcs {
+			if f.Pkg == nil || !inMosdns(f) || strings.HasSuffix(f.Pkg.Pkg.Path(), "/tools") {
+				continue
+			}
+			fn := f
+			eachInstr(f, func(in ssa.Instruction) {
+				al, ok := in.(*ssa.Alloc)
+				if !ok || typeKey(al.Type()) != S+typ {
+					return
+				}
+				// a composite literal (a field is stored), not the spill of a by-value receiver or parameter
+				lit := false
+				for _, r := range referrers(al) {
+					if fa, ok := r.(*ssa.FieldAddr); ok {
+						for _, r2 := range referrers(fa) {
+							if st, ok := r2.(*ssa.Store); ok && st.Addr == ssa.Value(fa) {
+								lit = true
+							}
+						}
+					}
+				}
+				if !lit {
+					return
+				}
+				n++
+				top := fn
+				for top.Parent() != nil {
+					top = top.Parent()
+				}
+				if top.Name() != ctor {
+					bad = p.pos(instrPos(in)) + " in " + funcName(fn)
+				}
+			})
+		}
+		c.check(n > 0 && bad == "", "constructed-only-by-setup:"+typ, token.NoPos, typ+" is built only by "+ctor,
+			typ+" is constructed outside "+ctor+" ("+bad+"): something that is not a `"+strings.ToLower(strings.TrimPrefix(typ, "Action"))+"` rule runs a sequence with jump/goto semantics — accept, reject and goto inside it then end all processing of the caller, and a wrapping plugin inside it wraps the rest of the caller")
 	}
 	if f := c.fn(relSeq, "ActionGoto", "Exec"); f != nil {
 		to, jb, call := newWalkerArgs(f)
@@ -899,4 +953,48 @@ func helperErrIsMatchers(cl *ssa.Call, idx int) bool {
 		}
 	}
 	return n > 0
+}
+
+// chainRunner: h is a NEW helper `run(ctx, qCtx, chain, jumpBack) error` that builds NewChainWalker(chain, jumpBack) from
+// its own parameters and returns exactly the result of one ExecNext on it. Returns the parameter positions of the chain
+// and the jump-back (-1: not such a helper).
+func chainRunner(h, en *ssa.Function) (int, int, bool) {
+	if h == nil || en == nil || !isNewHelper(h) || len(withAnon(h)) != 1 {
+		return -1, -1, false
+	}
+	chi, jbi := -1, -1
+	var nw *ssa.Call
+	var runs []*ssa.Call
+	other := false
+	eachInstr(h, func(in ssa.Instruction) {
+		ci, ok := in.(*ssa.Call)
+		if !ok {
+			return
+		}
+		switch {
+		case strings.HasSuffix(callName(ci), ".NewChainWalker") && len(ci.Call.Args) == 2:
+			nw = ci
+			for i, prm := range h.Params {
+				if ci.Call.Args[0] == ssa.Value(prm) {
+					chi = i
+				}
+				if ci.Call.Args[1] == ssa.Value(prm) {
+					jbi = i
+				}
+			}
+		case staticCallee(ci) == en:
+			runs = append(runs, ci)
+		default:
+			other = true
+		}
+	})
+	if nw == nil || chi < 0 || jbi < 0 || len(runs) != 1 || other {
+		return -1, -1, false
+	}
+	for _, r := range returnsOf(h) {
+		if rv := returnedValues(r); len(rv) != 1 || rv[0] != ssa.Value(runs[0]) {
+			return -1, -1, false
+		}
+	}
+	return chi, jbi, true
 }
